@@ -354,4 +354,5 @@ View == <<level, advertised>>
 LevelsFull  == {-1, 0, 1, 2, 3, 4, 5, 9, 11, 12}
 LevelsQuick == {-1, 0, 1, 4, 9}
 LevelsOne   == {4}
+LevelsNone  == {}
 =============================================================================
